@@ -292,12 +292,10 @@ def lstStep (s : St) (op : String) (a : List Int) : St × String :=
   let h := s.pheap
   match op, a with
   | "new", [i] => showLst { s with plists := s.plists.setIfInBounds (n i) {} } (n i)
-  | "pushb", [i, x] => setPN s (n i) (PL.constructNode h (getP s (n i)) x (PL.endPos (getP s (n i))))
-  | "pushf", [i, x] => setPN s (n i) (PL.constructNode h (getP s (n i)) x (PL.beginPos h (getP s (n i))))
-  | "popb", [i] =>
-    let l := getP s (n i)
-    if l.head = 0 then (s, "mem") else setP s (n i) (PL.erase h l (h.prevOf l.head))
-  | "popf", [i] => setP s (n i) (PL.erase h (getP s (n i)) (PL.beginPos h (getP s (n i))))
+  | "pushb", [i, x] => setP s (n i) (PL.pstep h (getP s (n i)) (.pushBack x))
+  | "pushf", [i, x] => setP s (n i) (PL.pstep h (getP s (n i)) (.pushFront x))
+  | "popb", [i] => setP s (n i) (PL.pstep h (getP s (n i)) .popBack)
+  | "popf", [i] => setP s (n i) (PL.pstep h (getP s (n i)) .popFront)
   | "insat", [i, idx, x] =>
     match posAt h (getP s (n i)) (n idx) with
     | none => (s, "mem")
@@ -338,7 +336,7 @@ def lstStep (s : St) (op : String) (a : List Int) : St × String :=
     match posAt h (getP s (n i)) (n pidx), posAt h src (n x), posAt h src (n y) with
     | some p, some f, some la => setP s (n i) (PL.spliceRange h (getP s (n i)) p f la)
     | _, _, _ => (s, "mem")
-  | "clear", [i] => setP s (n i) (PL.clear h (getP s (n i)))
+  | "clear", [i] => setP s (n i) (PL.pstep h (getP s (n i)) .clear)
   | "swap", [i, j] =>
     let li := getP s (n i); let lj := getP s (n j)
     showLst { s with plists := (s.plists.setIfInBounds (n i) lj).setIfInBounds (n j) li } (n i)
